@@ -175,6 +175,8 @@ class ProgGen:
                         out.append({"a": "awaitOpt", "ty": ty, "name": name})
                     else:
                         out.append({"a": "await", "ty": ty, "name": name})
+                        if rng.random() < 0.3:
+                            out[-1]["inject"] = True        # … through an injected coroutine function
                 spec[phase] = out
 
     def below(self, x: int, anc: int) -> bool:
